@@ -12,6 +12,7 @@ THEOREMS = [
     "Vinegar.C06.lookup_call_spec",
     "Vinegar.C06.template_context_spec",
     "Vinegar.C06.tftp_parity",
+    "Vinegar.C06.tftp_parity_cfg",
     "Vinegar.C06.c06Check_model",
     "Vinegar.Paths.accepts_iff",
     "Vinegar.Paths.tftp_keep_prefixes_val",
